@@ -5,7 +5,9 @@ The real MIR of print_truth_table_recursive (src/bin/rsbdd.rs) runs on the canon
 over k free variables with an unknown filter and the ParsedFormula built by the real constructor (ids are symbolic
 atoms: permutations / supersets of an ordering only change ids).  print_sized_line is replaced by a recorder of row
 events (entries, result leaf).  For a symbolic total assignment the number of recorded rows covering it is 1 when the
-filter admits the diagram's value and 0 otherwise, and the covering row reports that value."""
+filter admits the diagram's value and 0 otherwise, and the covering row reports that value.  -v: the real MIR of
+print_true_vars_recursive with String concatenation / join / format! executed on concrete header names; the recorded lines
+must cover exactly the satisfying assignments, each once (k <= 2)."""
 import sys
 from runner import *   # noqa
 import props
@@ -31,7 +33,7 @@ def main():
                                'ids': 'symbolic atoms (orderings only change ids)', 'filter_spellings': 'from_str on an unknown string of <= 6 characters'},
                        assumptions=props.COMMON_ASSUME + ['print_sized_line / println! replaced by a recorder of (entries, leaf) events: the text layout is not modelled'],
                        uncovered=['padding / column widths / the header text itself', 'clap option parsing', 'equality of the three input channels (--evaluate, file, stdin) and -b N: whole-program I/O (the -b loop only repeats eval; history independence is C13)',
-                                  '-v (print_true_vars_recursive): strings built by join/format are not modelled'],
+                                  '-v (print_true_vars_recursive) beyond 2 free variables (the number of distinct outputs explodes)'],
                        extra_jobs=jobs)
     sys.exit(rep.finish())
 
